@@ -173,6 +173,10 @@ class DV(object):
     def __truediv__(self, o):
         return self._comb(o, 'div')
 
+    def divzero_(self):
+        """self / 0: +-inf or nan of the same dtype kind, still a function of the same inputs."""
+        return DV(self.tags, self.kind, 'any')
+
     def __rtruediv__(self, o):
         r = self._comb(o, 'div')
         if self.sign != 'pos':
@@ -533,6 +537,14 @@ def make_hooks(real_only_sinks=None):
         tags = tags_of(x)
         return Arr(x.shape, [DV(tags, 'c') for _ in range(x.size)])
     hooks['np.fft.fft'] = fft
+
+    def real_if_close(models, a, tol=100):
+        """Data-abstract np.real_if_close: whether the imaginary parts are dropped depends on an *absolute* test
+        (|imag| < tol * eps for all elements); the result may be either, its kind is not determined."""
+        a = models.np_asarray(a)
+        mk = lambda v: DV(tags_of(v), '?', note='real_if_close: imaginary parts dropped when all |imag| < %s eps (absolute)' % (tol,))
+        return Arr(a.shape, [mk(v) for v in a.items()]) if isinstance(a, Arr) else mk(a)
+    hooks['real_if_close'] = real_if_close
 
     def convolve1d(models, seq, weights, axis=-1, mode='reflect', origin=0):
         """Data-abstract convolve1d: interior slots as in the exact model; a border slot (window leaves the
